@@ -3,6 +3,7 @@ package seq
 import (
 	"bytes"
 	"fmt"
+	"github.com/ipfs/go-cid"
 	"github.com/libp2p/go-libp2p/core/crypto"
 	"sort"
 	"strings"
@@ -564,6 +565,17 @@ func c06Searches(p *run.Part, tier string) []*seqx.Search {
 		}
 		ss = append(ss, s)
 	}
+	rl := &seqx.Search{Part: p, Check: "reloaded-policy", Cfg: Configs["denyB/default"], Alphabet: alpha, Depth: depth - 1, Deadline: dl,
+		OnState: func(w *seqx.World, c seqx.Case) {
+			key := "reload" + fmt.Sprint(hashesOf(w.Logs[0].Heads().Slice()), hashesOf(w.Logs[1].Heads().Slice()))
+			if _, dup := seen.LoadOrStore(key, true); dup {
+				return
+			}
+			for _, ld := range []string{"json", "multihash", "entry", "entryhash"} {
+				reloadPolicyOne(p, reloadCase{Case: c, Loader: ld})
+			}
+		}}
+	ss = append(ss, rl)
 	rs := &seqx.Search{Part: p, Check: "revocation", Cfg: cfgRevocable, Alphabet: alpha, Depth: depth, Deadline: dl,
 		OnState: func(w *seqx.World, c seqx.Case) {
 			for _, pr := range [][2]int{{0, 1}, {1, 0}} {
@@ -586,6 +598,14 @@ func init() {
 		runSearches(p, c06Searches(p, tier))
 		p.Sample(8, c06Case{Config: "allow/default", Path: Shapes["fork"], Dst: 1, Src: 0, Pos: 2, Fault: "payload-altered"})
 	}, Replay: func(p *run.Part, check string, raw []byte) {
+		if check == "reloaded-policy" && bytes.Contains(raw, []byte(`"reload_loader"`)) {
+			var rc reloadCase
+			if err := jsonUnmarshal(raw, &rc); err != nil {
+				panic(err)
+			}
+			reloadPolicyOne(p, rc)
+			return
+		}
 		if check == "revocation" && bytes.Contains(raw, []byte(`"dst"`)) {
 			var rc revokeCase
 			if err := jsonUnmarshal(raw, &rc); err != nil {
@@ -721,5 +741,79 @@ func revokeOne(p *run.Part, rc revokeCase) {
 		}
 		p.Add(0, 0, 1, 0)
 		p.Nontriv("revoked:" + pre.Key)
+	}
+}
+
+// ---------------------------------------------------------------------------
+// A log restored from the store keeps the controller it is given: for every state of the deny-one-writer
+// configuration, replica 0 (whose controller denies writer B) is rebuilt by each loader with that controller in its
+// options — and nothing else: no codec, no ordering — and then merges replica 1. If replica 1 brings entries of the
+// denied writer the merge is refused and changes nothing.
+
+type reloadCase struct {
+	seqx.Case
+	Loader string `json:"reload_loader"`
+}
+
+func reloadPolicyOne(p *run.Part, rc reloadCase) {
+	cfg := Configs["denyB/default"]
+	w := seqx.Replay(cfg, rc.Path)
+	l0, l1 := w.Logs[0], w.Logs[1]
+	if l0.Len() == 0 {
+		return
+	}
+	denied := world.IDs[1].ID
+	brings := false
+	for _, e := range l1.GetEntries().Slice() {
+		if _, ok := l0.Get(e.GetHash()); !ok && e.GetIdentity() != nil && e.GetIdentity().ID == denied {
+			brings = true
+		}
+	}
+	if !brings {
+		return
+	}
+	heads := l0.Heads().Slice()
+	var hashes []cid.Cid
+	for _, h := range heads {
+		hashes = append(hashes, h.GetHash())
+	}
+	lo := &ipfslog.LogOptions{ID: "X", AccessController: policyFor("denyB")}
+	var l *ipfslog.IPFSLog
+	var err error
+	switch rc.Loader {
+	case "json":
+		l, err = ipfslog.NewFromJSON(world.Ctx, w.St, world.IDs[0], &iface.JSONLog{ID: "X", Heads: hashes}, lo, &iface.FetchOptions{})
+	case "multihash":
+		var mh cid.Cid
+		if mh, err = l0.ToMultihash(world.Ctx); err == nil {
+			l, err = ipfslog.NewFromMultihash(world.Ctx, w.St, world.IDs[0], mh, lo, &ipfslog.FetchOptions{})
+		}
+	case "entry":
+		l, err = ipfslog.NewFromEntry(world.Ctx, w.St, world.IDs[0], append([]iface.IPFSLogEntry{}, heads...), lo, &iface.FetchOptions{})
+	case "entryhash":
+		if len(hashes) != 1 {
+			return
+		}
+		l, err = ipfslog.NewFromEntryHash(world.Ctx, w.St, world.IDs[0], hashes[0], lo, &ipfslog.FetchOptions{})
+	}
+	desc := fmt.Sprintf("after %s: replica 0 rebuilt with %s under its controller, then join(<-1)", seqx.PathString(rc.Path), rc.Loader)
+	if err != nil || l == nil {
+		p.Violate("reloaded-policy", "C06:reload-failed:"+rc.Loader, fmt.Sprintf("%s: the rebuild failed: %v", desc, err), rc)
+		return
+	}
+	before := sortedStrings(hashesOf(l.GetEntries().Slice()))
+	var jerr error
+	pv, stack := run.Safe(func() { _, jerr = l.Join(l1, -1) })
+	p.Add(0, 1, 0, 1)
+	switch {
+	case pv != nil:
+		p.Violate("reloaded-policy", "C06:panic:reloaded-merge:"+run.PanicSite(stack), fmt.Sprintf("%s panicked: %v", desc, pv), rc)
+	case jerr == nil:
+		p.Violate("reloaded-policy", "C06:denied-merge-accepted:reloaded:"+rc.Loader, desc+": the merge succeeded although the controller given to the loader denies the writer", rc)
+	case !eqStrings(before, sortedStrings(hashesOf(l.GetEntries().Slice()))):
+		p.Violate("reloaded-policy", "C06:failed-merge-changed-log", desc+": refused, but the entries changed", rc)
+	default:
+		p.Add(0, 0, 1, 0)
+		p.Nontriv("reloaded:" + rc.Loader + seqx.PathString(rc.Path))
 	}
 }
